@@ -3,6 +3,7 @@ package main
 import (
 	"fmt"
 	"go/token"
+	"go/types"
 	"sort"
 	"strings"
 
@@ -14,8 +15,8 @@ func init() {
 		ID:        "C01",
 		Roots:     []string{"overlord/state"},
 		Technique: "typestate extraction (status dataflow over the SSA CFG giving a from-set for every SetStatus/SetToWait site) compared with the allowed transition table; loop-latch gating of mustWait; guarded-sink / ordering on taskrunner.run, Ensure and abortTasks",
-		Explanation: "Structural necessary conditions for 'a failed change undoes exactly the work it had done, in reverse order': (R1) every status-setting site of package overlord/state has exactly the (from-set -> to) transition of the reviewed table (Do->Doing, Undo->Undoing, Doing->Done, Undoing->Undone, Abort->Undo|Hold, Do->Hold, Doing->Abort, Done->Undo, Undo->Done only without undo handler, ->Error only on the handler-error branch) and every table entry exists; (R2) mustWait in Undo status advances over the tasks halted by t only across Ready() statuses and answers false only after the whole loop; (R3) abortTasks pushes every halted task of every visited task onto its work list; (R4) on the handler-error branch abortLanes(t.Change(), t.Lanes()) precedes SetStatus(Error); (R5) Ensure turns an Undo task without undo handler into Done only after mustWait(t) returned false.",
-		NotDecided: "the healthy-lane exemption (hasLive/hasDead bookkeeping) and multi-lane recursion in Change.abortLanes; interaction of concurrent completions; that the change then settles (C03).",
+		Explanation: "Structural necessary conditions for 'a failed change undoes exactly the work it had done, in reverse order': (R1) every status-setting site of package overlord/state has exactly the (from-set -> to) transition of the reviewed table (Do->Doing, Undo->Undoing, Doing->Done, Undoing->Undone, Abort->Undo|Hold, Do->Hold, Doing->Abort, Done->Undo, Undo->Done only without undo handler, ->Error only on the handler-error branch) and every table entry exists; (R2) mustWait in Undo status advances over the tasks halted by t only across Ready() statuses and answers false only after the whole loop; (R3) abortTasks pushes every halted task of every visited task onto its work list; (R4) on the handler-error branch abortLanes(t.Change(), t.Lanes()) precedes SetStatus(Error); (R5) Ensure turns an Undo task without undo handler into Done only after mustWait(t) returned false; (R6) every transition that can unblock other tasks (to Done, Hold, Undone, Undo) in the completion closure and tryUndo is followed by EnsureBefore unless the list of tasks it can unblock is empty; (R7) the healthy-lane exemption of Change.abortLanes: a task is live exactly in effective status Do/Doing/Done, live tasks mark hasLive and every other task marks hasDead for lanes outside the kill list, and a lane task is spared only across hasLive[lane] && !hasDead[lane].",
+		NotDecided: "multi-lane recursion in Change.abortLanes/abortTasks terminating with the right set; interaction of concurrent completions; that the change then settles (C03).",
 		Run:        runC01,
 	})
 }
@@ -280,6 +281,249 @@ func runC01(c *Ctx) {
 		}, nil)
 	}
 	_ = strings.Join
+
+	// ---- R6
+	c.Rule("C01-R6", "G", "re-arm after unblocking: in run's completion closure and tryUndo, a transition to Done is followed by EnsureBefore unless len(t.HaltTasks())==0, to Hold/Undone unless len(t.WaitTasks())==0, to Undo always (otherwise the tasks it unblocks are never reconsidered and the change does not settle)", 5)
+	ensureBefore := P.FuncObj("overlord/state.(*State).EnsureBefore")
+	waitTasks := P.FuncObj("overlord/state.(*Task).WaitTasks")
+	haltTasks = P.FuncObj("overlord/state.(*Task).HaltTasks")
+	isEnsureBefore := func(in ssa.Instruction) bool { _, ok := IsCallTo(in, ensureBefore); return ok }
+	wake := func(fn *ssa.Function) {
+		k := 0
+		for _, sc := range CallSites(fn, setStatus) {
+			to, ok := ConstInt(CallArgs(sc)[0])
+			if !ok {
+				continue
+			}
+			name := ts.Names[to]
+			var lister *types.Func
+			switch name {
+			case "Done":
+				lister = haltTasks
+			case "Hold", "Undone":
+				lister = waitTasks
+			case "Undo":
+			default:
+				continue
+			}
+			k++
+			construct := fmt.Sprintf("%s#rearm-after-%s#%d", SSAFuncName(fn), name, k)
+			recv := CallRecv(sc)
+			// a len(...)==0 test on the right list of the same task exempts the path; the list may
+			// reach the test through a phi (`next`), in which case the phi edge taken from this
+			// site must be the right list.
+			var cutEdge func(b *ssa.BasicBlock, s int) bool
+			if lister != nil {
+				isList := func(v ssa.Value) bool {
+					return VRes(0, RecvWhere(ToFn(lister), func(r ssa.Value) bool { return TaskKey(r) == TaskKey(recv) }))(v)
+				}
+				listOrPhi := func(v ssa.Value) bool {
+					if isList(v) {
+						return true
+					}
+					phi, ok := stripNoCell(v).(*ssa.Phi)
+					if !ok {
+						return false
+					}
+					// every phi edge whose predecessor is reachable from the site (without passing
+					// through the phi's block) must carry the right list
+					found := false
+					for i, pb := range phi.Block().Preds {
+						if pb == sc.Block() || blockReaches(sc.Block(), pb, phi.Block()) {
+							if !isList(phi.Edges[i]) {
+								return false
+							}
+							found = true
+						}
+					}
+					return found
+				}
+				empty := Clause{
+					Cmp("len(list)==0", VLen(listOrPhi), token.EQL, VConstInt(0)),
+					Cmp("len(list)<=0", VLen(listOrPhi), token.LEQ, VConstInt(0)),
+					Cmp("list==nil", listOrPhi, token.EQL, isNilVal),
+				}
+				cutEdge = AtomEdges(empty...)
+			}
+			q := ReachQ{Fn: fn, From: LocOf(sc), CutInstr: isEnsureBefore, CutEdge: cutEdge, Sink: func(in ssa.Instruction) bool {
+				switch in.(type) {
+				case *ssa.Return:
+					return true
+				}
+				return false
+			}}
+			r := q.Run()
+			c.cur.Blocks += r.Blocks
+			c.cur.Edges += r.Edges
+			c.touch(fn)
+			what := "unconditionally"
+			if lister != nil {
+				what = "unless " + lister.Name() + "() is empty"
+			}
+			c.Check(!r.Found, construct, sc.Pos(), "EnsureBefore follows "+what, fmt.Sprintf("after SetStatus(%s) in %s the function can return without EnsureBefore (%s): tasks unblocked by this transition are not reconsidered until some unrelated wake-up; path: %s", name, SSAFuncName(fn), what, P.PathString(r.Path)))
+		}
+	}
+	for _, cl := range run.AnonFuncs {
+		wake(cl)
+	}
+	wake(P.Func("overlord/state.(*TaskRunner).tryUndo"))
+
+	// ---- R7
+	c.Rule("C01-R7", "T+G", "Change.abortLanes, healthy-lane exemption: a task counts as live exactly in effective status Do/Doing/Done; lanes outside the kill list get hasLive from live tasks and hasDead from every other task; a lane task is exempted only when a lane of it has live and no dead tasks", 6)
+	al := P.Func("overlord/state.(*Change).abortLanes")
+	c.touch(al)
+	// the `live` flag: a boolean phi of constants
+	var livePhi *ssa.Phi
+	for _, b := range al.Blocks {
+		for _, in := range b.Instrs {
+			phi, ok := in.(*ssa.Phi)
+			if !ok || !isBoolType(phi.Type()) {
+				continue
+			}
+			allConst := true
+			for _, e := range phi.Edges {
+				if _, isC := ConstBool(e); !isC {
+					allConst = false
+				}
+			}
+			if allConst && livePhi == nil {
+				livePhi = phi
+			}
+		}
+	}
+	if livePhi == nil {
+		c.Undecided("overlord/state.(*Change).abortLanes#live-flag", al.Pos(), "the live flag (boolean phi of constants) was not recognised")
+	} else {
+		// status sets on the incoming edges
+		var tkey ssa.Value
+		for _, ec := range CallSites(al, ts.eff) {
+			tkey = TaskKey(ec.Common().Args[0])
+		}
+		if tkey == nil {
+			c.Undecided("overlord/state.(*Change).abortLanes#status-observer", al.Pos(), "no taskEffectiveStatus(t) call found")
+		} else {
+			edges := ts.EdgeStates(al, tkey, ts.All)
+			var liveSet, deadSet uint32
+			for i, pb := range livePhi.Block().Preds {
+				v, _ := ConstBool(livePhi.Edges[i])
+				st := edges[[2]*ssa.BasicBlock{pb, livePhi.Block()}]
+				if v {
+					liveSet |= st
+				} else {
+					deadSet |= st
+				}
+			}
+			want := ts.Bit("Do") | ts.Bit("Doing") | ts.Bit("Done")
+			c.Check(liveSet == want, "overlord/state.(*Change).abortLanes#live-statuses", livePhi.Pos(), "live = effective status in "+ts.SetString(liveSet), fmt.Sprintf("a task is considered live in effective statuses %s; the healthy-lane exemption is defined for exactly %s", ts.SetString(liveSet), ts.SetString(want)))
+			c.Check(deadSet == ts.All&^want, "overlord/state.(*Change).abortLanes#dead-statuses", livePhi.Pos(), "not live = every other status "+ts.SetString(deadSet), fmt.Sprintf("a task is considered not live in %s; it must be every status but %s", ts.SetString(deadSet), ts.SetString(want)))
+		}
+		// the two opinion maps: updated on the live / not-live edge of the test of the flag
+		liveAtom := Atom{Name: "live", Match: func(cd Cond) Pol { return cd.BoolIs(VIs(livePhi)) }}
+		var mapL, mapD ssa.Value
+		var updL, updD *ssa.MapUpdate
+		for _, b := range al.Blocks {
+			for _, in := range b.Instrs {
+				mu, ok := in.(*ssa.MapUpdate)
+				if !ok {
+					continue
+				}
+				if v, isC := ConstBool(mu.Value); !isC || !v {
+					continue
+				}
+				if c.Try(al, mu, []Clause{{liveAtom}}, nil) {
+					mapL, updL = Strip(mu.Map), mu
+				} else if c.Try(al, mu, []Clause{{Not(liveAtom)}}, nil) {
+					mapD, updD = Strip(mu.Map), mu
+				}
+			}
+		}
+		if updL == nil || updD == nil || mapL == mapD {
+			c.Violated("overlord/state.(*Change).abortLanes#opinion-maps", al.Pos(), "the hasLive / hasDead updates (a map set to true under live, another under !live) were not both found: lanes outside the kill list no longer get both opinions recorded")
+		} else {
+			// from the test of the flag, each outcome must perform its update before the next lane/task
+			for _, b := range al.Blocks {
+				for si := range b.Succs {
+					for _, side := range []struct {
+						at  Atom
+						upd *ssa.MapUpdate
+						nm  string
+					}{{liveAtom, updL, "live"}, {Not(liveAtom), updD, "not-live"}} {
+						if !AtomEdges(side.at)(b, si) {
+							continue
+						}
+						q := ReachQ{Fn: al, From: &Loc{b.Succs[si], -1}, CutInstr: SinkIs(side.upd), SinkEdge: func(bb *ssa.BasicBlock, s int) bool {
+							// any loop header edge (next lane / next task) or leaving the loops
+							return bb.Succs[s].Comment == "rangeindex.loop" || bb.Succs[s].Comment == "rangeindex.done"
+						}}
+						r := q.Run()
+						c.Check(!r.Found, "overlord/state.(*Change).abortLanes#"+side.nm+"-opinion-recorded", side.upd.Pos(), "a "+side.nm+" task always records its opinion about a lane outside the kill list", "a "+side.nm+" task can move on without recording its opinion about the lane (extra condition on the update): a lane with failed or held tasks may then look healthy; path: "+P.PathString(r.Path))
+					}
+				}
+			}
+			// exemption: skip (continue NextLaneTask) only across hasLive[lane] && !hasDead[lane]
+			isLookup := func(m ssa.Value) func(ssa.Value) bool {
+				return func(v ssa.Value) bool {
+					lk, ok := Strip(v).(*ssa.Lookup)
+					return ok && Strip(lk.X) == m
+				}
+			}
+			hasL := Atom{Name: "hasLive[lane]", Match: func(cd Cond) Pol { return cd.BoolIs(isLookup(mapL)) }}
+			noD := Atom{Name: "!hasDead[lane]", Match: func(cd Cond) Pol { return cd.BoolIs(isLookup(mapD)).Flip() }}
+			// the append to the abort list is skipped only across both atoms: find the loop over laneTasks
+			nEx := 0
+			var lkBlock *ssa.BasicBlock
+			for _, b := range al.Blocks {
+				for _, in := range b.Instrs {
+					if lk, ok := in.(*ssa.Lookup); ok && Strip(lk.X) == mapL {
+						lkBlock = b
+					}
+				}
+			}
+			var cands []*RangeLoop
+			for _, rl := range RangeLoops(al) {
+				if lkBlock != nil && rl.Body.Dominates(lkBlock) {
+					cands = append(cands, rl)
+				}
+			}
+			for _, rl := range cands {
+				outer := true
+				for _, o := range cands {
+					if o != rl && o.Body.Dominates(rl.Header) {
+						outer = false
+					}
+				}
+				if !outer {
+					continue
+				}
+				nEx++
+				// advancing to the next lane task WITHOUT appending must pass both atoms
+				isAppend := func(in ssa.Instruction) bool {
+					ci, ok := in.(*ssa.Call)
+					if !ok {
+						return false
+					}
+					bi, ok := ci.Call.Value.(*ssa.Builtin)
+					return ok && bi.Name() == "append"
+				}
+				for _, at := range []Atom{hasL, noD} {
+					gate := AtomEdges(at)
+					q := ReachQ{Fn: al, From: &Loc{rl.Body, -1}, CutInstr: isAppend,
+						CutEdge: func(b *ssa.BasicBlock, s int) bool { return gate(b, s) || b.Succs[s] == rl.Done },
+						SinkEdge: func(b *ssa.BasicBlock, s int) bool { return b.Succs[s] == rl.Header }}
+					r := q.Run()
+					c.Check(!r.Found, "overlord/state.(*Change).abortLanes#exempt<="+at.Name, rl.Header.Instrs[0].Pos(), "a lane task is spared only across "+at.Name, "a lane task can be spared from the abort without "+at.Name+"; path: "+P.PathString(r.Path))
+				}
+			}
+			if nEx == 0 {
+				c.Undecided("overlord/state.(*Change).abortLanes#exemption-loop", al.Pos(), "the loop consulting hasLive/hasDead was not recognised")
+			}
+		}
+	}
+}
+
+func isBoolType(t types.Type) bool {
+	b, ok := t.Underlying().(*types.Basic)
+	return ok && b.Kind() == types.Bool
 }
 
 func mustCall(v ssa.Value) ssa.CallInstruction {
